@@ -7,3 +7,22 @@ def groups(tier):
                   backend=['sat'], timeout=900, kind='unbounded',
                   clause='for every datagram (length <= 65535): no out-of-bounds read; a result implies Binding Success, matching '
                          'transaction id, a well-formed (XOR-)MAPPED-ADDRESS attribute inside the datagram, RFC 5389 decoding')]
+
+
+def replay(group, trace):
+    """native search: structured random datagrams through the REAL parser (exact-size heap buffer, AddressSanitizer) against
+    an RFC 5389 reference decoder; the unbounded counterexample itself has no concrete datagram bytes (fresh object)"""
+    import sys, os, re
+    root = os.path.dirname(os.path.dirname(os.path.abspath(__file__)))
+    sys.path.insert(0, os.path.join(root, 'replay'))
+    import replaylib as R
+    exe = R.build('C33.cpp', [], extra=['-fsanitize=address', '-g'])
+    seed = int(os.environ.get('VERIF_SEED', '0') or 0)
+    rc, out = R.run(exe, ['search', seed, 300000], timeout=120)
+    lines = out.strip().splitlines()
+    last_input = [l for l in lines if l.startswith('INPUT')][-1:] or ['']
+    if rc == 0:
+        return False, 'native search over 300000 structured datagrams found no failing input'
+    asan = 'AddressSanitizer' in out
+    why = ('AddressSanitizer: ' + re.sub(r'\s+', ' ', out[out.index('AddressSanitizer'):])[:300]) if asan else lines[-1]
+    return True, f'{last_input[0]} -> exit {rc}: {why}'
